@@ -140,6 +140,40 @@ def _run_own(tier, seed, build, res):
         universe.run(cases[i:i + 2000], res, 'equations', project, oracle,
                      sample_rule=lambda c, im: len(meta[(c.latex, c.lang) if (c.latex, c.lang) in meta else (c.latex, c.lang, c.seqs)][0]) > 1)
     switch_stream(rng, res)
+    text_parts_stream(rng, res)
+
+
+def text_parts_stream(rng, res):
+    """arguments of \\text and \\mbox inside an equation are copied with exact
+    positions -- in running text, in a footnote, and when the footnote is
+    extracted (--extr), with all packages or amsmath alone"""
+    cases = []
+    for env in ('equation', 'align', 'gather*'):
+        eq = ('\\begin{%s} a &= b \\text{ forx } c \\\\ d &= \\mbox{ifx } e. \\end{%s}' % (env, env))
+        for tex in ('Start ' + eq + ' end.\n',
+                    'Start\\footnote{See ' + eq + ' there} end.\n',
+                    'Start\\footnote{See ' + eq + '} end.\n'):
+            for extr in ('', 'footnote'):
+                for pack in ('*', 'amsmath', 'amsmath,babel'):
+                    c = parsecase.T2T(tex, lang='en', pack=pack, extr=extr, files={})
+                    cases.append((c, None, 'text-parts'))
+
+    def oracle(c, d, kind, im):
+        if im[0] != 'OK':
+            return None
+        txt, pos = im[1][1], im[1][2]
+        if c.extr and 'footnote' not in c.latex:
+            return None
+        for w in ('forx', 'ifx'):
+            k = txt.find(w)
+            if k < 0:
+                return 'the argument %r of \\text / \\mbox is not in the rendering %r' % (w, txt)
+            for i, ch in enumerate(w):
+                if c.latex[pos[k + i] - 1] != ch:
+                    return ('character %r of the \\text / \\mbox argument maps to %d (%r)'
+                            % (ch, pos[k + i], c.latex[pos[k + i] - 1]))
+        return None
+    universe.run(cases, res, 'text-parts', project, oracle)
 
 
 def switch_stream(rng, res):
